@@ -1,4 +1,5 @@
 (* Props_C11.v — C11: suspicion timeout takes effect iff unrefuted; Down is final until forgotten. *)
+From Foca Require Import L_TimeoutLast.
 From Foca Require Import Laws L_Lists MembersM FocaM L_Members L_MembersInv L_Join L_Forward L_Reject L_Timeout.
 From Coq Require Import Permutation.
 
@@ -68,6 +69,29 @@ Proof.
     rewrite E1, E2 in N. rewrite (proj2 (id_eqb_eq x x) eq_refl) in N. cbn in N. discriminate.
 Qed.
 
+(* the remaining effective case: the timeout of the LAST active member.  The record becomes Down
+   exactly as above and the instance goes Idle: epoch bumped, probe cleared, Idle notified after
+   MemberDown, the courtesy TurnUndead still sent *)
+Theorem C11_effective_last_member (rnd : oracle) (f : @foca Id Addr HO) (x : Id) (inc : N) (k : member Id) :
+  lookup (inner (mems f)) (addr_of x) = Some k ->
+  m_id k = x -> m_inc k = inc -> m_active k = true ->
+  conn f = Connected -> num_active (mems f) = 1 ->
+  send_cap f = max_packet_size (cfg f) -> header_fits f ->
+  exists ms',
+    step rnd f (timeout x inc (token f)) =
+    (set_prb (set_token (set_conn
+        (set_updates (set_mems f ms')
+           (add_or_replace Addr addr_eqb (updates f) (addr_of x) (enc_mem (mkMember x inc Down)) (max_transmissions (cfg f))))
+        Disconnected) (wrap8 (token f + 1))) (probe_clear (prb f)),
+     [Submit (TRemoveDown x) (remove_down_after (cfg f)); Notify (NMemberDown x); Notify NIdle]
+       ++ (if notify_down_members (cfg f)
+           then [Send x (enc_hdr (mkHeader (identity f) (incarnation f) x TurnUndead))] else []),
+     Done, 0)
+    /\ num_active ms' = 0
+    /\ exists p, nth_error (inner (mems f)) p = Some k /\
+                 inner ms' = set_nth p (mkMember x inc Down) (inner (mems f)).
+Proof. exact (timeout_effective_last rnd f x inc k). Qed.
+
 End C11.
 
 Print Assumptions C11_stale_epoch_noop.
@@ -75,3 +99,4 @@ Print Assumptions C11_cancelled_noop.
 Print Assumptions C11_effective.
 Print Assumptions C11_down_final.
 Print Assumptions C11_forget_exact.
+Print Assumptions C11_effective_last_member.
